@@ -5,6 +5,8 @@ import (
 	"math"
 	"sync"
 	"time"
+
+	"github.com/internetarchive/Zeno/internal/pkg/verifhook"
 )
 
 // managedBucket wraps a TokenBucket with usage info for LFU eviction.
@@ -74,6 +76,7 @@ func (bm *BucketManager) getBucket(host string) *managedBucket {
 		lastAccess: time.Now(),
 	}
 	bm.buckets[host] = mb
+	verifhook.Obs("rl.bucket.create", host, len(bm.buckets), bm.maxBuckets)
 	return mb
 }
 
@@ -89,26 +92,32 @@ func (bm *BucketManager) evictLFU() {
 	}
 	if lfuKey != "" {
 		delete(bm.buckets, lfuKey)
+		verifhook.Obs("rl.bucket.evict", lfuKey)
 	}
 }
 
 // Wait blocks until a token is available for the given host.
 func (bm *BucketManager) Wait(host string) time.Duration {
+	verifhook.At("rl.wait.enter", host)
 	start := time.Now()
 	mb := bm.getBucket(host)
+	verifhook.Obs("rl.wait.bucket", host, mb.bucket)
 	mb.bucket.Wait()
+	verifhook.Obs("rl.wait.done", host, mb.bucket)
 	return time.Since(start)
 }
 
 // AdjustOnFailure applies failure adjustments for the given host's bucket.
 func (bm *BucketManager) AdjustOnFailure(host string, statusCode int) {
 	mb := bm.getBucket(host)
+	verifhook.Obs("rl.adjust.failure", host, statusCode, mb.bucket)
 	mb.bucket.adjustOnFailure(statusCode)
 }
 
 // OnSuccess signals success for the given host's bucket.
 func (bm *BucketManager) OnSuccess(host string) {
 	mb := bm.getBucket(host)
+	verifhook.Obs("rl.adjust.success", host, mb.bucket)
 	mb.bucket.onSuccess()
 }
 
@@ -120,11 +129,13 @@ func (bm *BucketManager) cleanupLoop() {
 	for {
 		select {
 		case <-ticker.C:
+			verifhook.At("rl.cleanup.tick")
 			bm.mu.Lock()
 			now := time.Now()
 			for host, mb := range bm.buckets {
 				if now.Sub(mb.lastAccess) > bm.cleanupFreq {
 					delete(bm.buckets, host)
+					verifhook.Obs("rl.bucket.cleanup", host)
 				}
 			}
 			bm.mu.Unlock()
